@@ -17,7 +17,8 @@ func init() {
 		Explanation: "(R1) every blocking operation (blocking select, bare channel operation, sleep, wait, network I/O) in the synchronous call closure of the API entry points (methods of Client/AdminClient, SendRPC, scanner Next/Close; through hrpc.RegionClient into the region client; not across go statements) is a select with a <-ctx.Done() case whose context originates from the API caller's context parameter or from Context() of the call being processed (origin traced through context.With*, StartSpan, phis, spilled locals and parameter passing), or is a tabled exception with a checked precondition; " +
 			"(R2) every wait on a call's result channel also watches a context derived from that same call's own Context() (the region client silently drops calls whose own context ended); " +
 			"(R3) the region client does not send expired calls (multi.toProto tests Context().Err(), QueueRPC/QueueBatch have Done cases); " +
-			"(R4) the scanner tests its context before every fetch.",
+			"(R4) the scanner tests its context before every fetch." +
+			" Added after the seeded-change rounds: (R3) in QueueRPC the direct (not context-aware) send is reached only when the call cannot be batched or the queue size is <= 1; (R5) every request the library builds itself (hrpc.New*) and uses synchronously is built with a context originating from the caller or the call (requests only handed to go statements are exempt); (R6) under SendBatch (descent stopped at SendRPC) every blocking select has a Done() case bound to SendBatch's own context parameter; (R7) the retry-loop rule of C17.R3 is run here: a cycle that skips the back-off wait also never observes cancellation.",
 		Residue:   "the bound on the delay (real time); interruption of a kernel write in progress (tabled, bounded by the connection failing: C18)",
 		Technique: "blocking-operation enumeration over the synchronous call closure + context-origin dataflow (SSA, CHA call graph)",
 		Run:       runC13,
